@@ -211,6 +211,9 @@ func c16Scope(e *Env, pool *hx.Pool, r *hx.Rand, n int) {
 	}
 }
 
+// reIndexRef: DROP INDEX / ALTER INDEX "<first>"[."<second>"]
+var reIndexRef = regexp.MustCompile(`(?i)^\s*(?:DROP|ALTER)\s+INDEX\s+(?:CONCURRENTLY\s+)?(?:IF\s+EXISTS\s+)?("(?:[^"]|"")*")(\.("(?:[^"]|"")*"))?`)
+
 var reSchemaStmt = regexp.MustCompile(`(?i)^\s*(CREATE|DROP|ALTER)\s+(SCHEMA|DATABASE)\b`)
 
 // c16Marker runs one marker case on a real planner and monitors every statement.
@@ -396,6 +399,13 @@ func c16Marker(e *Env, c c16Case) {
 		if reSchemaStmt.MatchString(stmt) {
 			e.Res.Violate("failing-input", "schema-statement-in-scoped-plan", fmt.Sprintf("%s: %s creates/drops/alters a schema: %s", c.Dialect, where, trunc(stmt, 200)), "Props.C16.scope_rejects", map[string]any{"case": c, "stmt": stmt})
 			return false
+		}
+		if c.Qual == "custom" && c.Dialect == "postgres" {
+			// an index is referenced by name in DROP INDEX / ALTER INDEX: there it carries the qualifier
+			if m := reIndexRef.FindStringSubmatch(stmt); m != nil && (m[2] == "" || m[1] != `"`+customQual+`"`) {
+				e.Res.Violate("failing-input", "custom-qualifier-missing", fmt.Sprintf("%s mode=%d: %s references the index without the requested qualifier: %s", c.Dialect, c.Mode, where, trunc(stmt, 300)), "Props.C16.custom_used", map[string]any{"case": c, "stmt": stmt})
+				return false
+			}
 		}
 		if c.Qual == "custom" {
 			// every table / type reference must be preceded by exactly the custom qualifier
